@@ -27,6 +27,10 @@ type HistConfig struct {
 	PGlobals       float64
 }
 
+func schedOf(policy string, seed uint64) simrt.Schedule {
+	return simrt.Schedule{Default: policy, Seed: seed}
+}
+
 func drawSched(r *Rng) simrt.Schedule {
 	switch r.Intn(4) {
 	case 0:
